@@ -49,6 +49,7 @@ template <class A> static Verdict check_type(const u32s &cps, const Matcher::Res
       VF_REQUIRE(p.rc == URI_ERROR_SYNTAX, "%s/%s: grammar rejects (L=%zu) but rc=%d", A::name(), en, res.L, p.rc);
       if (e == PE_STATE_EX || e == PE_STATE_Z)
         VF_REQUIRE(p.stateCode == URI_ERROR_SYNTAX, "%s/%s: state.errorCode=%d", A::name(), en, p.stateCode);
+      if (!entry_reports_errorpos(e)) { p.release(); continue; }
       VF_REQUIRE(p.errorPos != nullptr, "%s/%s: NULL error position", A::name(), en);
       VF_REQUIRE(p.errorPos >= p.first() && p.errorPos <= p.afterLast(), "%s/%s: error position outside the input (%td)",
                  A::name(), en, p.errorPos - p.first());
